@@ -3,7 +3,7 @@
    Run by bin/check in the directory ocaml/ (the facts are re-extracted first). *)
 From Coq Require Import Extraction ExtrOcamlBasic List.
 From Coq.Strings Require Import Byte.
-From GV Require Import Base.Bytes Base.Tok Skel.Compose Parser.Pre Facts.ParserConsts.
+From GV Require Import Base.Bytes Base.Tok Skel.Compose Norm.Norm Parser.Pre Facts.ParserConsts.
 
 Definition m_strip := strip_non_mso_comments.
 Definition m_escamp := escape_attribute_ampersands named_entities.
@@ -23,4 +23,8 @@ Definition m_merge_check (a b : bytes) : bool :=
 Definition m_std_texts (s : bytes) : option (list bytes) := view_texts Std (lex s).
 Definition m_mso_texts (s : bytes) : option (list bytes) := view_texts Mso (lex s).
 
-Extraction "model.ml" m_std_texts m_mso_texts m_merge_check m_strip m_escamp m_entities m_wrap m_preprocess m_byte_to_nat m_lex m_check_std m_check_mso m_no_vml_outside.
+Definition m_equiv_diff (a b : bytes) : option nat := first_diff 0 (norm (lex a)) (norm (lex b)).
+
+Definition m_norm (a : bytes) : list ntok := norm (lex a).
+
+Extraction "model.ml" m_norm m_equiv_diff m_std_texts m_mso_texts m_merge_check m_strip m_escamp m_entities m_wrap m_preprocess m_byte_to_nat m_lex m_check_std m_check_mso m_no_vml_outside.
